@@ -438,12 +438,13 @@ def r10_5(chk, repo, cr):
     chk.ob("R10.5", SX, "_cell_string", "CELL parameters are rounded to >= 5 decimals (not truncated to fewer)", okr,
            found=str(P.atom(rd[0])) if rd else None)
     ff = repo.module("fmt/cif.py").ev("format_field")
+    from ..layout import float_roundtrips
     okf = False
     for e in ff.returns:
         p = pieces_of(e.value)
-        if p and len(p) == 1 and p[0].kind == "fmt" and p[0].spec.type == "f":
-            okf = (p[0].spec.prec or 0) >= 8
-    chk.ob("R10.5", "fmt/cif.py", "format_field", "CIF loop floats are written fixed-point with >= 8 decimals", okf)
+        if p and len(p) == 1 and p[0].kind == "fmt" and any(pol and "isinstance" in c.key() and "float" in c.key() for c, pol in e.guards):
+            okf = float_roundtrips(p[0]) or (p[0].spec.type == "f" and (p[0].spec.prec or 0) >= 8)
+    chk.ob("R10.5", "fmt/cif.py", "format_field", "CIF loop floats carry at least 8 decimals (round-trip text or fixed-point with >= 8 decimals)", okf)
     vw = repo.module(VW).ev("poscar_string")
     n = 0
     for e in vw.events:
